@@ -7,7 +7,8 @@ Correspondence (harness/control.cpp linking the real libompl vs drv_control):
   (a) propagate / propagateWhileValid, all overloads, lock-step on scripted validity predicates;
   (b) control::RRT (both intermediate-state modes, NearestNeighborsLinear) run with recording samplers,
       the Lean model re-run on the recorded draws: status, approximate flag, difference, path and the
-      whole tree must be identical bit for bit;
+      whole tree must be identical bit for bit; (b2) the same planner driven by scripted samplers on hand-shaped
+      lattice scripts (exact ties, threshold hits, out-of-range step counts) against the model on the same line;
   (c) PathControl::check / interpolate on planner paths and mutated paths.
 Spec oracle ON THE IMPLEMENTATION's output, independent of model and harness propagator: `oracle()`
 below re-propagates every reported path of all eight control planners with Python doubles (same
@@ -238,7 +239,7 @@ def oracle(pb, sol):
             fails.append({"clause": "replay-mismatch", "seg": i,
                           "detail": "replaying control %d for %d steps ends %.3g away from path state %d" % (i, k, d, i + 1)})
     gd = goal_dist(pb.goal, S[-1])
-    in_goal = gd <= pb.thr
+    in_goal = gd < pb.thr      # GoalRegion::isSatisfied is strict
     if not in_goal and not sol["approx"]:
         fails.append({"clause": "goal", "seg": len(C), "detail": "last state is %.6g from the goal (threshold %g) and the solution is not flagged approximate" % (gd, pb.thr)})
     if not in_goal and sol["status"] == "EXACT_SOLUTION":
@@ -638,7 +639,8 @@ def run(ck):
         impl, rc, err, model = ck.run_pair(hbin, DRIVER, s)
         impl = impl or []
         ck.traces_validated += 1
-        strip = [o.partition(" | ")[0] for o in impl]
+        # the harness appends its call counters to pwv/prop lines after " | " (checked by pwv_oracle, not by the model)
+        strip = [o.partition(" | ")[0] if ln.split()[0] in ("pwv", "prop") else o for ln, o in zip(lines, impl)] + impl[len(lines):]
         for ln, o in zip(lines, impl):
             ck.count("op:" + ln.split()[0])
             ck.case(ln, o != "bad-op" and ln.split()[0] in ("pwv", "prop"))
